@@ -29,11 +29,11 @@ func (g *G) genAolMsg() (sdk.Msg, string) {
 	for _, k := range sortedKeys(m.Topics) {
 		existing = append(existing, m.Topics[k])
 	}
-	kind := g.weighted("aol-kind", "create", 2, "addw", 3, "delw", 2, "rec", 10)
+	kind := g.weighted("aol-kind", "create", g.bias("aol-create", 2), "addw", 3, "delw", g.bias("aol-delw", 2), "rec", g.bias("aol-rec", 10))
 	if len(existing) == 0 && g.chance("bootstrap", 80) {
 		kind = "create"
 	}
-	owner := g.intn("owner", 4)
+	owner := g.intn("owner", g.bias("aol-owners", 4))
 	topic := pick(g, "topic", topics)
 	// aim at an existing topic most of the time
 	if len(existing) > 0 && kind != "create" && g.chance("aim-existing", 88) {
